@@ -65,17 +65,17 @@ inductive GuardKind where
   | afterPrelude -- some other statement of Next runs before the guard
   | delegate     -- Next is `return inner.Next()`
   | none
-  deriving DecidableEq, Repr, BEq
+  deriving DecidableEq, Repr
 
 inductive RetClass where
   | guard   -- the guard's own `return false`
   | stored  -- `d.err = …` immediately before `return false`
   | bare    -- any other `return false`
-  deriving DecidableEq, Repr, BEq
+  deriving DecidableEq, Repr
 
 inductive ErrKind where
   | errField | errDelegate | errUnknown
-  deriving DecidableEq, Repr, BEq
+  deriving DecidableEq, Repr
 
 structure DecoderFacts where
   decoder : String
@@ -85,6 +85,24 @@ structure DecoderFacts where
   otherReturns : Nat
   errKind : ErrKind
   deriving Repr
+
+/-- `return false` statements that neither are the guard nor follow a store: (decoder, index in the
+    extracted `returns` list, why this is a clean end and not a swallowed error). Hand-written review. -/
+def reviewedCleanEnds : List (String × Nat × String) := [
+  ("encoding/turtle.Decoder", 1, "state stack empty: end of document; errors of scan are stored by `rsNext, r.err = r.scan(…)` at the end of the loop body and caught by the guard at the top of the next iteration"),
+  ("encoding/trig.Decoder", 1, "same as turtle"),
+  ("encoding/htmljsonld.Decoder", 2, "all embedded readers consumed: end of document"),
+  ("encoding/html/htmldefaults.Decoder", 1, "no nested iterator left: end of document")
+]
+
+def returnsOK (d : DecoderFacts) : Bool :=
+  (d.returns.zipIdx).all fun (r, i) =>
+    r == .guard || r == .stored || (r == .bare && (reviewedCleanEnds.map fun e => (e.1, e.2.1)).contains (d.decoder, i))
+
+/-- the flags of the wrapper model a decoder's extracted facts justify -/
+def factsOf (d : DecoderFacts) : Facts :=
+  { guardFirst := (d.guard == .first || d.guard == .loopFirst) && d.preludeCalls == 0
+    storesErr := returnsOK d }
 
 /-! ### the buffered instance: decoders that parse everything on the first call
 
